@@ -1,25 +1,65 @@
-(* Props/W4C07b.v — sptensor.squeeze as GENERATED from /repo/pyttb/sptensor.py on every run (Gen/GenSptensor4b.v; the result
-   is a tensor or a number): bridge to the hand reference of Model/W4Squeeze.v and laws.  Only statements, `exact`,
-   Print Assumptions. *)
+(* Props/W4C07b.v — sptensor.squeeze as GENERATED from the pyttb source tree under test on every run (Gen/GenSptensor4b.v; the
+   result is a tensor or a number): bridge to the hand reference of Model/W4Squeeze.v and laws.  Only statements, `exact`,
+   Print Assumptions.
+   Wave 6: the reference H_squeeze_p is parametric in the entry-wise test "this mode stays".  The text of /repo reads
+   `shapeArray > 1` up to fix f390850 and `shapeArray != 1` after it; every theorem below holds for either text:
+   gen_sq_keep is the test of the text under check (selected by gen_sq_keeps_zero, an observation of the generated method on an
+   empty tensor of shape (0, 1)); the `_pos` statements are the wave-4/5 statements for receivers without a size-0 mode. *)
 From Coq Require Import List ZArith Arith Bool.
-From PV Require Import Np.NpZ Np.NpZ2 Np.NpZ3 Np.NpZ3c Np.NpZ3d Np.NpZ3e Np.NpZ4 Np.NpZ4b Np.NpZ4d Model.W4Squeeze Proofs.W4Squeeze
+From PV Require Import Np.NpZ Np.NpZ2 Np.NpZ3 Np.NpZ3c Np.NpZ3d Np.NpZ3e Np.NpZ4 Np.NpZ4b Np.NpZ4d Np.NpZ4f Model.W4Squeeze Proofs.W4Squeeze
   Gen.GenSptensor4b.
 Import ListNotations.
 Local Open Scope Z_scope.
 
-Theorem C07_gen_sp_squeeze_bridge : forall self : sptz, sptensor_squeeze self = H_squeeze self.
+Theorem C07_gen_sp_squeeze_bridge : forall self : sptz, sptensor_squeeze self = H_squeeze_p gen_sq_keep self.
 Proof. exact squeeze_bridge. Qed.
 Print Assumptions C07_gen_sp_squeeze_bridge.
 
+(* the generated text is one of the two readings, for every receiver at once *)
+Theorem C07_gen_sp_squeeze_text :
+  (forall self : sptz, sptensor_squeeze self = H_squeeze_p (fun d => d >? 1) self) \/
+  (forall self : sptz, sptensor_squeeze self = H_squeeze_p (fun d => negb (d =? 1)) self).
+Proof. exact squeeze_bridge_text. Qed.
+Print Assumptions C07_gen_sp_squeeze_text.
+
+Theorem C07_gen_sp_squeeze_keep : forall d : Z,
+  gen_sq_keep d = (if gen_sq_keeps_zero then negb (d =? 1) else d >? 1) /\ (0 < d -> gen_sq_keep d = (d >? 1)).
+Proof. exact (fun d => conj eq_refl (gen_sq_keep_pos d)). Qed.
+Print Assumptions C07_gen_sp_squeeze_keep.
+
+Theorem C07_gen_sp_squeeze_bridge_pos : forall self : sptz, forallb (fun d => 0 <? d) (spt_shape self) = true ->
+  sptensor_squeeze self = H_squeeze self.
+Proof. exact squeeze_bridge_pos. Qed.
+Print Assumptions C07_gen_sp_squeeze_bridge_pos.
+
 Theorem C07_gen_sp_squeeze_shape : forall self t : sptz, sptensor_squeeze self = Ok (SqTensor t) ->
-  spt_shape t = filter (fun d => d >? 1) (spt_shape self) /\ spt_vals t = spt_vals self.
+  spt_shape t = filter gen_sq_keep (spt_shape self) /\ spt_vals t = spt_vals self.
 Proof. exact gen_squeeze_shape. Qed.
 Print Assumptions C07_gen_sp_squeeze_shape.
 
 Theorem C07_gen_sp_squeeze_scalar : forall (self : sptz) (v : Z), sptensor_squeeze self = Ok (SqScalar v) ->
-  filter (fun d => d >? 1) (spt_shape self) = [] /\ (spt_vals self = [v] \/ (spt_vals self = [] /\ v = 0)).
+  filter gen_sq_keep (spt_shape self) = [] /\ (spt_vals self = [v] \/ (spt_vals self = [] /\ v = 0)).
 Proof. exact gen_squeeze_scalar. Qed.
 Print Assumptions C07_gen_sp_squeeze_scalar.
+
+Theorem C07_gen_sp_squeeze_shape_pos : forall self t : sptz, forallb (fun d => 0 <? d) (spt_shape self) = true ->
+  sptensor_squeeze self = Ok (SqTensor t) ->
+  spt_shape t = filter (fun d => d >? 1) (spt_shape self) /\ spt_vals t = spt_vals self.
+Proof. exact gen_squeeze_shape_pos. Qed.
+Print Assumptions C07_gen_sp_squeeze_shape_pos.
+
+Theorem C07_gen_sp_squeeze_scalar_pos : forall (self : sptz) (v : Z), forallb (fun d => 0 <? d) (spt_shape self) = true ->
+  sptensor_squeeze self = Ok (SqScalar v) ->
+  filter (fun d => d >? 1) (spt_shape self) = [] /\ (spt_vals self = [v] \/ (spt_vals self = [] /\ v = 0)).
+Proof. exact gen_squeeze_scalar_pos. Qed.
+Print Assumptions C07_gen_sp_squeeze_scalar_pos.
+
+(* modes of size 0 in a returned tensor: all of the receiver's under the text `!= 1`, none under the text `> 1` *)
+Theorem C07_gen_sp_squeeze_zero_mode : forall self t : sptz, sptensor_squeeze self = Ok (SqTensor t) ->
+  (gen_sq_keeps_zero = true -> count_occ Z.eq_dec (spt_shape t) 0 = count_occ Z.eq_dec (spt_shape self) 0) /\
+  (gen_sq_keeps_zero = false -> count_occ Z.eq_dec (spt_shape t) 0 = 0%nat).
+Proof. exact gen_squeeze_zero_mode. Qed.
+Print Assumptions C07_gen_sp_squeeze_zero_mode.
 
 Example C07_gen_sp_squeeze_example :
   sptensor_squeeze (mkspt [[0; 1; 0; 3]; [0; 0; 0; 1]] [5; -7] [1; 2; 1; 4]) = Ok (SqTensor (mkspt [[1; 3]; [0; 1]] [5; -7] [2; 4])) /\
@@ -28,3 +68,10 @@ Example C07_gen_sp_squeeze_example :
   sptensor_squeeze (mkspt [[0; 0]; [0; 0]] [9; 4] [1; 1]) = Err /\
   sptensor_squeeze (mkspt [[1; 2]] [3] [2; 3]) = Ok (SqTensor (mkspt [[1; 2]] [3] [2; 3])).
 Proof. repeat split; reflexivity. Qed.
+
+(* a size-0 mode next to a singleton: the result is the one the text under check prescribes *)
+Example C07_gen_sp_squeeze_zero_example :
+  sptensor_squeeze (mkspt [] [] [0; 1; 3]) =
+    Ok (SqTensor (mkspt [] [] (if gen_sq_keeps_zero then [0; 3] else [3]))) /\
+  sptensor_squeeze (mkspt [] [] [0; 1]) = (if gen_sq_keeps_zero then Ok (SqTensor (mkspt [] [] [0])) else Ok (SqScalar 0)).
+Proof. split; vm_compute; reflexivity. Qed.
